@@ -6,7 +6,8 @@ RULE = ("requests: System<N> for N in {0,1,2,3,4,5,7,8,31,64} and, with draw seq
         "scripted entropy source (the crate is built without `getrandom` and linked against the harness's getentropy_raw): tagged words, failure injected at every fetch index, a "
         "failing fetch scribbles over the destination first; entropy-seeded constructors X::new() with the state read back through serde. "
         "oracle: every returned word is a word of a successful fetch, returned at most once and in fetch order; never the initial zeros or scribbled content. "
-        "non-trivial = at least one op; distinct = distinct request line")
+        "non-trivial = at least one op; distinct = distinct request line"
+        " Since round 10: newgen gen=libnew - the state of the opaque value returned by urandom::new() is read back from memory and judged like the other constructors.")
 ASSUMPTIONS = ["the `getrandom` back end (default feature) cannot be made to fail and is covered by code reading only; its success path is the same code above getentropy_uninit"]
 
 NS = [0, 1, 2, 3, 4, 5, 7, 8, 31, 64]
